@@ -1266,6 +1266,14 @@ func (fr *Frame) doPanic(x *ssa.Panic, st *State) {
 func (fr *Frame) doReturn(x *ssa.Return, st *State) {
 	var vals []Val
 	for _, r := range x.Results {
+		if c, ok := r.(*ssa.Const); ok && c.Value == nil && isStruct(c.Type()) {
+			// `return T{}`: the zero value of a struct type is a fresh object with every field zero (the constant itself
+			// would denote reference 0, whose fields nothing constrains)
+			obj := fr.fx.alloc(st)
+			fr.fx.zeroStruct(st, obj, c.Type(), 0)
+			vals = append(vals, tv(obj))
+			continue
+		}
 		vals = append(vals, fr.val(r))
 	}
 	fr.rets = append(fr.rets, returnInfo{st: st, vals: vals, blk: x.Block()})
